@@ -161,6 +161,16 @@ func (x *Exec) callFunction(fr *frame, s *State, callee *ssa.Function, args []Va
 		}
 		return x.applyContract(fr, s, ct, callee, callee.Name(), args, names, callee.Signature, pos)
 	}
+	if ct == nil && !isLocalClosure && x.E.autoPure(callee, 0) {
+		x.C.Trusted["small loop-free, store-free callees without contract are inlined (exact) instead of being abstracted"] = true
+		exit, results, _ := x.run(callee, s, args, nil, nil, true)
+		if exit == nil {
+			s.Reach = False
+			return nil
+		}
+		*s = *exit
+		return results
+	}
 	if (ct != nil && (ct.Inline || ct.Pure)) || (isLocalClosure && len(callee.Blocks) > 0) {
 		if ct != nil {
 			ct.Used = true
@@ -269,6 +279,12 @@ func (x *Exec) applyContract(fr *frame, s *State, ct *Contract, callee *ssa.Func
 		x.assumePreserved(s, pre.Heaps, callee, callee == nil)
 	} else {
 		x.havocModifies(env, s, ct.Modifies)
+	}
+	if ct.Modifies != nil {
+		// the callee may allocate: results may be fresh objects
+		nf := x.C.Fresh("frontier", SInt)
+		x.C.Assume(Implies(s.Reach, App(SBool, "<=", s.Frontier, nf)))
+		s.Frontier = nf
 	}
 	res := sig.Results()
 	out := make([]Value, res.Len())
@@ -445,4 +461,71 @@ func (x *Exec) havocModifies(env *specEnv, s *State, m *Clause) {
 	nf := x.C.Fresh("frontier", SInt)
 	x.C.Assume(Implies(s.Reach, App(SBool, "<=", s.Frontier, nf)))
 	s.Frontier = nf
+}
+
+// autoPure: a package function that is loop-free, writes nothing but its own
+// locals, and calls only functions of the same kind or modelled pure library
+// functions. Such callees are inlined exactly.
+func (e *Engine) autoPure(fn *ssa.Function, depth int) bool {
+	if r, ok := e.autoPureCache[fn]; ok {
+		return r
+	}
+	if depth > 4 || len(fn.Blocks) == 0 || fn.Pkg != e.Pkg {
+		return false
+	}
+	e.autoPureCache[fn] = false // recursion guard
+	n := 0
+	for _, b := range fn.Blocks {
+		for _, s := range b.Succs {
+			if s.Dominates(b) {
+				return false
+			}
+		}
+		for _, in := range b.Instrs {
+			n++
+			switch in := in.(type) {
+			case *ssa.Store:
+				a := rootAlloc(in.Addr)
+				if a == nil || a.Heap {
+					return false
+				}
+			case *ssa.Alloc:
+				if in.Heap {
+					return false
+				}
+			case *ssa.Call:
+				if _, ok := in.Call.Value.(*ssa.Builtin); ok {
+					switch in.Call.Value.Name() {
+					case "len", "cap", "min", "max", "ssa:deferstack":
+						continue
+					}
+					return false
+				}
+				if in.Call.IsInvoke() && (in.Call.Method.Name() == "Error" || in.Call.Method.Name() == "String") && in.Call.Signature().Params().Len() == 0 {
+					continue
+				}
+				callee := in.Call.StaticCallee()
+				if callee == nil {
+					return false
+				}
+				if eff, ok := e.modelEffect(callee); ok && len(eff) == 0 {
+					continue
+				}
+				if !e.autoPure(callee, depth+1) {
+					return false
+				}
+			case *ssa.MapUpdate, *ssa.Go, *ssa.Defer, *ssa.Send, *ssa.Select, *ssa.MakeClosure, *ssa.MakeMap, *ssa.MakeSlice, *ssa.MakeChan, *ssa.Panic, *ssa.Range, *ssa.Next:
+				return false
+			case *ssa.UnOp:
+				if in.Op == token.ARROW {
+					return false
+				}
+			}
+		}
+	}
+	if n > 400 {
+		return false
+	}
+	e.autoPureCache[fn] = true
+	return true
 }
